@@ -133,6 +133,39 @@ def build_ops(dadi):
         dd = data_dict(r, ['P', 'Q'], 40, [6, 8])
         return dadi.Spectrum.from_data_dict(dd, ['P', 'Q'], [4, 4])
     @op
+    def fragment_bootstrap(r):
+        # SNPs on several chromosomes (names of different lengths, some with underscores), cut into chunks and resampled with a
+        # fixed `random` seed: the order of the chunk list must not depend on the hash seed or on earlier calls
+        import random
+        chroms = ['chr1', 'chr2', 'chrX', 'scaffold_12', 'chr10', 'contig_7_b'][:int(r.integers(3, 7))]
+        dd = {}
+        for c in chroms:
+            for pos in sorted(set(int(x) for x in r.integers(1, 5000, int(r.integers(4, 12))))):
+                n = int(r.choice([6, 8])); a = int(r.integers(0, n + 1))
+                dd['%s_%d' % (c, pos)] = dict(segregating=('A', 'T'), calls={'P': (n - a, a)}, outgroup_allele='A', context='-A-', outgroup_context='-A-')
+        frags = dadi.Misc.fragment_data_dict(dd, int(r.choice([700, 1500])))
+        sizes = np.array([len(f) for f in frags], dtype=float)
+        random.seed(int(r.integers(1 << 30)))
+        boots = dadi.Misc.bootstraps_from_dd_chunks(frags, 3, ['P'], [4])
+        first = np.array([float(sum(ord(ch) for ch in sorted(f)[0])) if len(f) else -1.0 for f in frags])   # which chromosome/position each chunk starts with
+        return np.concatenate([sizes, first] + [np.ma.filled(b, -1.0).ravel() for b in boots])
+    @op
+    def slim_data_dict(r):
+        # data dictionary read from two SLiM sample files, then a projected spectrum: the order of the entries (hence the round-off
+        # of the sums over them) must not depend on the hash seed
+        import io
+        nm = int(r.integers(30, 70))
+        def f(n):
+            lines = ['#OUT: 1000 SS p1 %d\n' % n, 'Mutations:\n']
+            lines += ['%d %d m1 %d 0 0.5 p1 100 5\n' % (l, 1000 + l, 17 * l + 3) for l in range(nm)]
+            lines.append('Genomes:\n')
+            for i in range(n):
+                lines.append('p1:%d A %s\n' % (i, ' '.join(str(l) for l in range(nm) if r.random() < 0.3)))
+            return io.StringIO(''.join(lines))
+        dd, ss = dadi.Misc.dd_from_SLiM_files([f(10), f(8)])
+        fs = dadi.Spectrum.from_data_dict(dd, [0, 1], [4, 5])
+        return np.concatenate([np.array([float(sum(ord(c) for c in k)) for k in dd.keys()]), np.ma.filled(fs, -1.0).ravel()])
+    @op
     def project_after_counts(r):
         fs = fs_rand(r, (int(r.choice([9, 11])),)); return fs.project([int(r.choice([4, 6]))])
     @op
